@@ -6,6 +6,8 @@ import (
 	"go/ast"
 	"go/types"
 	"os"
+	"sort"
+	"time"
 
 	"golang.org/x/tools/go/packages"
 
@@ -46,9 +48,83 @@ func main() {
 				fmt.Printf("%v %s %s elem=%s L%d off=%s  %s\n", s.OK, p.Pos(s.Loop.Pos()), core.ObjName(obj), s.Elem, s.Level, s.Offset, s.Why)
 			}
 		})
+	case "extcalls":
+		cnt := map[string]int{}
+		for _, fn := range p.SrcFuncs(true) {
+			for _, c := range eng.Calls(fn) {
+				cc := c.Common()
+				if cc.IsInvoke() {
+					if !core.IsLibraryPkg(pkgOf(cc.Method)) {
+						cnt["invoke "+cc.Value.Type().String()+"."+cc.Method.Name()]++
+					}
+					continue
+				}
+				if f := cc.StaticCallee(); f != nil && !core.InModule(f) {
+					cnt[f.String()]++
+				} else if f == nil && eng.BuiltinName(c) == "" {
+					cnt["dynamic:"+cc.Value.Type().String()]++
+				}
+			}
+		}
+		var ks []string
+		for k := range cnt {
+			ks = append(ks, k)
+		}
+		sort.Strings(ks)
+		for _, k := range ks {
+			fmt.Println(cnt[k], k)
+		}
+	case "modref":
+		entries := eng.ExportedEntries(p)
+		t0 := time.Now()
+		m := eng.NewModRef(p, entries)
+		m.Solve()
+		fmt.Println("entries", len(entries), "funcs", len(m.Funcs), "iters", m.Iter, "objs", m.NumObjs(), "writes", len(m.Writes), time.Since(t0))
+		nbad := 0
+		for _, e := range m.Entries {
+			ws := m.WritesToArgs(e)
+			if len(ws) > 0 {
+				nbad++
+				fmt.Printf("WRITES %s\n", core.FuncName(e))
+				seen := map[string]bool{}
+				for _, w := range ws {
+					k := p.Pos(w.Event.Instr.Pos()) + w.Target.String()
+					if seen[k] {
+						continue
+					}
+					seen[k] = true
+					if len(seen) > 6 {
+						break
+					}
+					fmt.Printf("    %s %s -> %s   via %v\n", p.Pos(w.Event.Instr.Pos()), w.Event.What, w.Target, w.Path)
+				}
+			}
+		}
+		fmt.Println("entries with writes:", nbad)
+		for _, w := range m.GlobalWrites() {
+			fmt.Printf("GLOBAL %s %s -> %s\n", p.Pos(w.Event.Instr.Pos()), core.FuncName(w.Event.Fn), w.Target)
+		}
+		for _, e := range m.Entries {
+			if e.Name() == "Clone" {
+				fmt.Printf("CLONE %s aliases=%v\n", core.FuncName(e), m.ResultAliases(e))
+			}
+		}
+		var ks []string
+		for k, n := range m.Unmodeled {
+			ks = append(ks, fmt.Sprintf("%s(%d)", k, n/m.Iter))
+		}
+		sort.Strings(ks)
+		fmt.Println("unmodeled:", ks)
 	case "funcs":
 		for _, fn := range p.SrcFuncs(true) {
 			fmt.Println(core.FuncName(fn))
 		}
 	}
+}
+
+func pkgOf(f *types.Func) string {
+	if f.Pkg() == nil {
+		return ""
+	}
+	return f.Pkg().Path()
 }
